@@ -169,6 +169,8 @@ def jobs(tier, seed=0):
     res.append(dict(cc="ARG", preset="net_baseline_custom_herd", options=dict(copy.deepcopy(P["net_baseline"]), meat_cattle_head=5000000, pig_head=100000)))
     # an explicit threshold together with a shut-off schedule that carries its own default threshold
     res.append(dict(cc="ECU", preset="ms_worst_T60", options=dict(copy.deepcopy(P["ms_worst"]), MINIMUM_PERCENT_FED_BEFORE_NONHUMAN_CONSUMPTION_ALLOWED=60)))
+    # ... the same for the world aggregate
+    res.append(dict(cc="WOR", preset="ms_worst_T50", options=to_global(dict(copy.deepcopy(P["ms_worst"]), MINIMUM_PERCENT_FED_BEFORE_NONHUMAN_CONSUMPTION_ALLOWED=50))))
     # ... and a run that follows, in the same process, a run of the same country, strategy and horizon with other grass and crops
     res.append(dict(cc="USA", preset="nw_crops_die_after_nw", options=copy.deepcopy(V["nw_crops_die"]), prelude=copy.deepcopy(P["net_nuclear_winter"])))
     # output options are not inputs: the per-country figures switched on, and a world run that is given no title
